@@ -287,6 +287,11 @@ def check(cell) -> Verdict:
             if o['child_started'] == 0:
                 return bad('generated-place-did-not-start-the-child')
             return bad('timeout-not-reported-as-hard-error')
+        # the process that exceeded the timeout is terminated - not started again
+        # (with `timeout = 0` it may be ended before it has recorded its start)
+        if o['child_started'] not in ((0, 1, 2) if (cell['place'] == 'env-stdout-from' and cell['phase'] == 'setup')
+                                      else (0, 1) if cell['history'] == 'h7_zero' else (1,)):
+            return bad('timed-out-child-started-%d-times' % o['child_started'])
         exp_phases = {cell['phase']}
         if cell['place'] == 'stdin-stdout-from':
             exp_phases = {'setup', 'act'}
